@@ -144,6 +144,14 @@ def scenarios(tier, seed):
             for probe in probes[:3]:
                 S.append(Scenario(f'{cfg}/ok-then-probe/{ok}/{probe}', SRC, names, pre, consts={'cfg': cfg, 'history': [ok], 'probe': probe}, preamble=PRE,
                                   what=f'[{ok!r}, {probe!r}] on one {cfg} solver', samples=1))
+    # an accepted call, then a text that differs from it only by blanks (inside an operator symbol or a number the meaning changes, around an operator it does not)
+    variants = [('{a}**{b}', '{a}* *{b}'), ('{a}<={b}', '{a}< ={b}'), ('{a}!={b}', '{a}! ={b}'), ('{a}&&{b}', '{a}& &{b}'), ('sqrt({a})', 'sqrt ({a})'), ('{a}{b}', '{a} {b}'),
+                ('{a}+{b}*{c}', '{a} + {b} * {c}'), ('{a}-{b}', '{a}- {b}'), ('logb({a},{b})', 'logb( {a} , {b} )'), ('{a}||{b}', '{a}| |{b}')]
+    for j, (first, second) in enumerate(variants):
+        S.append(Scenario(f'default/accepted-then-respaced/{j}', SRC, names, pre, consts={'cfg': 'default', 'history': [first], 'probe': second}, preamble=PRE,
+                          what=f'[{first!r}, {second!r}] on one default solver', samples=1))
+        S.append(Scenario(f'default/respaced-then-accepted/{j}', SRC, names, pre, consts={'cfg': 'default', 'history': [second], 'probe': first}, preamble=PRE,
+                          what=f'[{second!r}, {first!r}] on one default solver', samples=1))
     if tier != 'quick':
         g = exprkit.Gen()
         t3 = rnd.sample([t for t in g.all(3) if not exprkit.fn_of_bool(t)], 60)
@@ -190,7 +198,10 @@ def run(v, O):
     out = [('same kind of outcome as a fresh instance', O.same(used[0], ref[0]))]
     if used[0] == ref[0] == 'raised':
         out.append(('same error as a fresh instance', O.same(used[1], ref[1])))
-    if used[0] == ref[0] == 'ok':
+    nonfin = lambda x: isinstance(x, float) and (x != x or x in (float('inf'), -float('inf')))
+    if used[0] == ref[0] == 'ok' and (nonfin(used[1]) or nonfin(ref[1])):
+        out.append(('both calls give a non-finite number', O.same(nonfin(used[1]) and nonfin(ref[1]), True)))
+    elif used[0] == ref[0] == 'ok':
         isb = lambda x: type(x).__name__ in ('bool', 'bool_', 'SymBool')
         out.append(('same value as a fresh instance', O.veq(used[1], ref[1]) if (isb(used[1]) or isb(ref[1])) else O.eq(used[1], ref[1], 1e-12)))
     return out
@@ -222,6 +233,11 @@ def hist_scenarios(tier, seed):
         for cname, cpre in cells:
             S.append(Scenario(f'chars/hist-probe/{pi}/{cname}', HIST_SRC, {f'c{i}': 'char' for i in range(3)}, cpre, consts={'first': ['@c0', '@c1', '@c2'], 'second': [probe]}, preamble=pre,
                               what=f'any 3 characters, then {probe!r} (first character: {cname})', samples=10))
+    # (D) an accepted first text, then the same text with one free character inserted anywhere (a blank there changes the meaning: '12' vs '1 2', '2**3' vs '2* *3')
+    for ai, acc in enumerate(['12', '2**3', '4<=5', '1&&1', '1!=2', 'log10(100)', '2.5+1', '(7)'] if tier != 'quick' else ['12', '2**3', '4<=5', 'log10(100)']):
+        for p in range(1, len(acc)):
+            S.append(Scenario(f'chars/hist-accepted/{ai}@{p}', HIST_SRC, {'d0': 'char'}, consts={'first': [acc], 'second': [acc[:p], '@d0', acc[p:]]}, preamble=pre,
+                              what=f'{acc!r} accepted first, then the same text with any character inserted at position {p}', samples=5))
     # (C) a well-formed text with one free character (failing part-way, inside parentheses, in function arguments ...), then a free second string or a probe
     bases = c01.base_strings(rnd, 6 if tier == 'quick' else 30)
     for bi, text in enumerate(bases):
